@@ -149,6 +149,16 @@ def general_paths(n, max_arity=3):
     yield from rec(n, 1)
 
 
+def spellings_of(paths):
+    """every way of writing each step (all orders of the positions inside a
+    step): linear paths are legal with descending pairs too"""
+    for path in paths:
+        for combo in itertools.product(
+            *(list(itertools.permutations(c)) for c in path)
+        ):
+            yield tuple(combo)
+
+
 # ------------------------------------------------------------------ units
 
 NETS_FOR_TREES = {
@@ -279,7 +289,7 @@ def check_linear(n, res):
     pb = importlib_pb()
     inputs = NETS_FOR_TREES[n]
     sd = {ix: 2 for t in inputs for ix in t}
-    for path in U.all_linear_paths(n):
+    for path in spellings_of(U.all_linear_paths(n)):
         res.evals += 1
         res.key(("lin", n, path))
         bad = []
@@ -288,9 +298,20 @@ def check_linear(n, res):
             own = own_linear_to_ssa(path, n)
             if norm(ssa) != own:
                 bad.append(("linear_to_ssa", ssa, own))
+            if norm(pb.linear_to_ssa(path)) != own:
+                bad.append(("linear_to_ssa with inferred N",))
             back = pb.ssa_to_linear(ssa, n)
             if norm(back) != norm(path):
                 bad.append(("ssa_to_linear(linear_to_ssa(p)) != p", back))
+            # ssa ids spelled in the same (possibly descending) order
+            ssa_sp = [tuple(sorted(c, reverse=(a[0] > a[-1])))
+                      for c, a in zip(own, path)]
+            if norm(pb.ssa_to_linear(ssa_sp, n)) != norm(path):
+                bad.append(("ssa_to_linear on descending spelling",))
+            tc = ctg.ContractionTreeCompressed.from_path(
+                inputs, (), sd, path=path)
+            if set(tc.children) != {p for p, _ in interp_linear(path, n)[0]}:
+                bad.append("ContractionTreeCompressed.from_path(path) nodes")
             back2 = pb.linear_to_ssa(pb.ssa_to_linear(own, n), n)
             if norm(back2) != own:
                 bad.append(("linear_to_ssa(ssa_to_linear(s)) != s", back2))
@@ -315,7 +336,7 @@ def check_general(n, res):
     pb = importlib_pb()
     inputs = NETS_FOR_TREES[n]
     sd = {ix: 2 for t in inputs for ix in t}
-    for path in general_paths(n):
+    for path in spellings_of(general_paths(n)):
         res.evals += 1
         res.key(("gen", n, path))
         bad = []
